@@ -262,6 +262,9 @@ class LexInterp:
             for s, v in self.ev(e.args[0], st):
                 if v[0] == "slice" and isinstance(v[1], int) and isinstance(v[2], int):
                     res.append((s, ("slicelen", v[1], v[2])))
+                elif v[0] in ("slice", "opaque") and s.env.get("\0consumed_more_than"):
+                    # a text whose start lies before a scanning loop that is known to have consumed more than k characters
+                    res.append((s, ("slicelen_gt", s.env["\0consumed_more_than"][1])))
                 else:
                     raise Unsupported("len() of %r" % (v,))
             return res
@@ -454,6 +457,8 @@ class LexInterp:
             if r[0] == "const" and isinstance(r[1], str) and len(r[1]) == 1 and isinstance(op, (ast.GtE, ast.Gt, ast.Lt, ast.LtE)):
                 fn = {ast.GtE: lambda ch: ch >= r[1], ast.Gt: lambda ch: ch > r[1], ast.Lt: lambda ch: ch < r[1], ast.LtE: lambda ch: ch <= r[1]}[type(op)]
                 return self.split(s, l[1], self.A.where(fn))
+        if l[0] == "slicelen_gt" and r[0] == "const" and isinstance(r[1], int) and isinstance(op, (ast.Eq, ast.NotEq)) and r[1] <= l[1]:
+            return [(s, False != neg)]          # longer than k, hence different from every length <= k
         if l[0] == "slicelen" and r[0] == "const" and isinstance(op, (ast.Eq, ast.NotEq)):
             a, b = l[1], l[2]
             if b <= s.c:
@@ -717,12 +722,54 @@ class LexInterp:
                 return done
         raise Unsupported("counter loop at line %s does not terminate within 64 iterations" % n.lineno)
 
-    def loop(self, n, st):
+    def _length_bound(self):
+        """largest integer a `len(...)` is compared with in the method being interpreted (None when there is none)"""
+        if not self.stack:
+            return None
+        m = self.stack[-1]
+        if isinstance(m, str):
+            m = self.cls.find_method(m) or self.module_function(m) if hasattr(self, "module_function") else self.cls.find_method(m)
+        node = getattr(m, "node", None)
+        if node is None:
+            return None
+        best = None
+        for x in ast.walk(node):
+            if isinstance(x, ast.Compare) and len(x.ops) == 1 and isinstance(x.left, ast.Call) and isinstance(x.left.func, ast.Name) \
+                    and x.left.func.id == "len" and isinstance(x.comparators[0], ast.Constant) and isinstance(x.comparators[0].value, int) \
+                    and not isinstance(x.comparators[0].value, bool):
+                best = x.comparators[0].value if best is None else max(best, x.comparators[0].value)
+        return best if best is not None and 0 < best <= 16 else None
+
+    def loop(self, n, st, _unrolled=False):
         if n.orelse:
             raise Unsupported("while/else")
         unrolled = self._counter_loop(n, st)
         if unrolled is not None:
             return unrolled
+        bound = None if _unrolled else self._length_bound()
+        if bound is not None and isinstance(n.test, ast.Constant) and bool(n.test.value):
+            # an unbounded scanning loop whose consumed text is later measured against a constant k (`len(text) != k`):
+            # the first k+1 iterations are interpreted one by one (positions stay exact), whatever is still looping after
+            # them has consumed more than k characters and goes on in the general (star) form
+            cur, done = [st], []
+            for _ in range(bound + 1):
+                nxt = []
+                for s in cur:
+                    for s2, status, val in self.block(n.body, s):
+                        if status in ("next", "continue"):
+                            if s2.c <= s.c:
+                                raise Unsupported("loop at line %s has an iteration that consumes nothing" % n.lineno)
+                            nxt.append(s2)
+                        elif status == "break":
+                            done.append((s2, "next", None))
+                        else:
+                            done.append((s2, status, val))
+                cur = nxt
+            for s in cur:
+                s = s.clone()
+                s.env["\0consumed_more_than"] = ("const", bound)
+                done.extend(self.loop(n, s, _unrolled=True))
+            return done
         heads, index, work = [], {}, []
 
         def register(hs):
